@@ -20,6 +20,28 @@ def probes(entry, X, rng):
     return numpy.array(rows, dtype=X.dtype)
 
 
+def drop_near_ties(model, P):
+    """DecisionTreeLogisticRegression routes a row by comparing a node classifier's probability with the node's
+    threshold, and fit_improve puts thresholds ON training rows: for such a row the comparison is decided by the last
+    ulp, which differs between a batch and a single-row BLAS call.  Rows within 1e-9 of a threshold on their path are
+    not probes (the same rule as in C10: a floating-point near-tie is not reproducible outside the call)."""
+    if type(model).__name__ != "DecisionTreeLogisticRegression" or not hasattr(model, "tree_"):
+        return P
+    keep = []
+    for q in range(len(P)):
+        node, near = model.tree_, False
+        x = P[q:q + 1]
+        while node is not None:
+            p1 = node.estimator.predict_proba(x)[0, 1]
+            if abs(p1 - node.threshold) < 1e-9:
+                near = True
+                break
+            node = node.above if p1 > node.threshold else node.below
+        if not near:
+            keep.append(q)
+    return P[keep] if len(keep) >= 4 else P[:0]
+
+
 def scenario(hist, entry, rng, variant=0):
     a = entry.make(variant)
     hist.new(a)
@@ -28,7 +50,10 @@ def scenario(hist, entry, rng, variant=0):
     if not ok:
         return
     P = probes(entry, X, rng)
+    P = drop_near_ties(a, P)
     m = len(P)
+    if m == 0:
+        return
     models = [(a, "fitted")]
     p = hist.copy(a, "pickle")
     if p is not None:
